@@ -505,7 +505,36 @@ impl<'a, SE: extensions::ShellExtensions> SimpleCommand<'a, SE> {
         self,
         func_registration: functions::Registration,
     ) -> Result<ExecutionSpawnResult, error::Error> {
-        let mut shell = self.shell;
+        // A function called in a subshell of its own (a pipeline stage) runs concurrently
+        // with the commands spawned after it, like a builtin in that position; running it to
+        // completion first would deadlock as soon as it fills the pipe to the next stage.
+        let mut shell = match self.shell {
+            ShellForCommand::OwnedShell { target, .. } => {
+                let mut owned_shell = *target;
+                let (command_name, params, args, post_execute) =
+                    (self.command_name, self.params, self.args, self.post_execute);
+                let join_handle = tokio::task::spawn_blocking(move || {
+                    let rt = tokio::runtime::Handle::current();
+                    rt.block_on(async {
+                        let last_arg = Self::take_last_arg(&args);
+                        let cmd_context = ExecutionContext {
+                            shell: &mut owned_shell,
+                            command_name,
+                            params,
+                        };
+                        let result =
+                            invoke_shell_function(func_registration, cmd_context, &args[1..]).await;
+                        owned_shell.update_last_arg_variable(last_arg);
+                        if let Some(post_execute) = post_execute {
+                            let _ = post_execute(&mut owned_shell);
+                        }
+                        Ok(ExecutionResult::from(result?.wait().await?))
+                    })
+                });
+                return Ok(ExecutionSpawnResult::StartedTask(join_handle));
+            }
+            shell @ ShellForCommand::ParentShell(..) => shell,
+        };
         let last_arg = Self::take_last_arg(&self.args);
 
         let cmd_context = ExecutionContext {
